@@ -10,6 +10,7 @@ import (
 )
 
 type FuncResult struct {
+	Pinned map[string]bool // automatic invariant candidates fixed by the baseline (nil: free Houdini search)
 	Key         string
 	Fn          *ssa.Function
 	Spec        *FuncSpec
@@ -33,8 +34,13 @@ func (P *Prog) verifyFunc(fn *ssa.Function, thorough bool) (res *FuncResult) {
 // (pinned, ids "loopN:auto:<cand>"): no Houdini search at check time, so the set of obligations does not
 // depend on solver timing. A pinned candidate that no longer holds is an ordinary failed claimed obligation.
 func (P *Prog) verifyFuncPinned(fn *ssa.Function, thorough bool, pinned map[string]bool) (res *FuncResult) {
+	return P.verifyFuncPinnedMode(fn, thorough, pinned, "")
+}
+
+func (P *Prog) verifyFuncPinnedMode(fn *ssa.Function, thorough bool, pinned map[string]bool, mode string) (res *FuncResult) {
 	off := map[string]bool{}
-	res = P.verifyFuncOnce(fn, thorough, off, "")
+	res = P.verifyFuncOnce(fn, thorough, off, mode)
+	res.Pinned = pinned
 	if res.Ex == nil || len(res.Ex.autoSeen) == 0 || res.Unsupported != "" || res.ContractErr != "" {
 		return res
 	}
@@ -46,7 +52,9 @@ func (P *Prog) verifyFuncPinned(fn *ssa.Function, thorough bool, pinned map[stri
 	if len(off) == 0 {
 		return res
 	}
-	return P.verifyFuncOnce(fn, thorough, off, "")
+	res = P.verifyFuncOnce(fn, thorough, off, mode)
+	res.Pinned = pinned
+	return res
 }
 
 func (P *Prog) verifyFuncMode(fn *ssa.Function, thorough bool, mode string) (res *FuncResult) {
@@ -355,7 +363,12 @@ func (P *Prog) solveFuncInner(s *Solver, res *FuncResult, thorough bool, keep fu
 	if len(open) == 0 || res.Fn == nil || !otherMode {
 		return vs
 	}
-	res2 := P.verifyFuncMode(res.Fn, thorough, other)
+	var res2 *FuncResult
+	if res.Pinned != nil {
+		res2 = P.verifyFuncPinnedMode(res.Fn, thorough, res.Pinned, other)
+	} else {
+		res2 = P.verifyFuncMode(res.Fn, thorough, other)
+	}
 	if res2.Ex == nil || res2.Unsupported != "" || res2.ContractErr != "" {
 		return vs
 	}
@@ -373,6 +386,8 @@ func (P *Prog) solveFuncInner(s *Solver, res *FuncResult, thorough bool, keep fu
 	}
 	vs2 := s.solveAll(res2.Ex, obls2)
 	for i, v2 := range vs2 {
+		// where a retry has to happen: in the other encoding
+		idx[i].AltEx, idx[i].AltObl = res2.Ex, obls2[i]
 		if v2.Status == "unsat" || idx[i].Status == "deferred" {
 			idx[i].Status = v2.Status
 			idx[i].Solver = v2.Solver + "[" + other + "]"
